@@ -5,6 +5,7 @@
 -/
 import Wormhole.GeneratedWsBody
 import Wormhole.Props.C17
+import Wormhole.Inv.MsgDb
 
 namespace Wormhole.Tie
 open Wormhole Wormhole.PyWs
@@ -18,12 +19,12 @@ theorem handle_ping_eq (s : Sys) (c : Nat) (t : Time) (msg : JObj) (pick : Nat) 
   cases hp : jget msg "ping" with
   | none =>
     simp [hp, fieldVal] at hv; subst hv
-    simp [runHandler, execL, execS, eval, isTruthy, hp, Sys.handlePing]
+    simp [runHandler, execL, execS, eval, getPV, isTruthy, hp, Sys.handlePing]
   | some jv =>
     simp [hp, fieldVal] at hv
     obtain ⟨w, hw, rfl⟩ := hv
     cases jv <;> simp [JVal.toVal?] at hw <;> subst hw <;>
-      simp [runHandler, execL, execS, eval, isTruthy, hp, Sys.handlePing, mkFrame, ofJson, List.lookup]
+      simp [runHandler, execL, execS, eval, getPV, isTruthy, hp, Sys.handlePing, mkFrame, ofJson, List.lookup]
 
 /-! ### the connection record under attribute writes and method calls -/
 
@@ -72,13 +73,13 @@ theorem handle_claim_eq (s : Sys) (c : Nat) (x : Conn) (app side : String) (t : 
   cases hj : jget msg "nameplate" with
   | none =>
     simp [hj, fieldStr] at hn; subst hn
-    simp [runHandler, execL, execS, eval, isTruthy, hj, Sys.handleClaim, hid]
+    simp [runHandler, execL, execS, eval, getPV, isTruthy, hj, Sys.handleClaim, hid]
   | some jv =>
     cases jv <;> simp [hj, fieldStr] at hn
     subst hn
     rename_i name
     by_cases hdc : x.didClaim = true
-    · simp [runHandler, execL, execS, eval, isTruthy, hj, Sys.handleClaim, St.conn, hx, getAttr, hdc, hid]
+    · simp [runHandler, execL, execS, eval, getPV, isTruthy, hj, Sys.handleClaim, St.conn, hx, getAttr, hdc, hid]
     · have hdc' : x.didClaim = false := by simpa using hdc
       have e1 : ∀ y : Conn, setAttr (setAttr y "_did_claim" (.bool true)) "_nameplate_id" (.str name)
           = { y with didClaim := true, nameplateId := some name } := by
@@ -95,7 +96,7 @@ theorem handle_claim_eq (s : Sys) (c : Nat) (x : Conn) (app side : String) (t : 
         have := findConn_updConn (f := fun y => { y with didClaim := true, nameplateId := some name }) hx (fun _ => rfl)
         rw [← hid] at this ⊢
         simpa using this
-      simp [runHandler, execL, execS, eval, isTruthy, hj, St.conn, hx, h1, getAttr, hdc', ofJson]
+      simp [runHandler, execL, execS, eval, getPV, isTruthy, hj, St.conn, hx, h1, getAttr, hdc', ofJson]
       rw [h3]
       simp [h2, ha, hs, callMethod, callClaim, ofOptStr, Sys.handleClaim, hdc']
       generalize s.updConn x.id (fun y => { y with didClaim := true, nameplateId := some name }) = S2
@@ -111,9 +112,9 @@ theorem handle_allocate_eq (s : Sys) (c : Nat) (x : Conn) (app side : String) (t
   subst hb
   have hid := Sys.findConn_id hx
   by_cases hda : x.didAllocate = true
-  · simp [runHandler, execL, execS, eval, isTruthy, Sys.handleAllocate, St.conn, hx, getAttr, hda, hid]
+  · simp [runHandler, execL, execS, eval, getPV, isTruthy, Sys.handleAllocate, St.conn, hx, getAttr, hda, hid]
   · have hda' : x.didAllocate = false := by simpa using hda
-    simp [runHandler, execL, execS, eval, isTruthy, Sys.handleAllocate, St.conn, hx, getAttr, hda', ha, hs, callMethod,
+    simp [runHandler, execL, execS, eval, getPV, isTruthy, Sys.handleAllocate, St.conn, hx, getAttr, hda', ha, hs, callMethod,
       callAllocate, ofOptStr]
     cases hf : Sys.findAvailable (s.db.namesOfApp app) pick draws with
     | none => simp [hid, Sys.internalErr]
@@ -131,7 +132,7 @@ theorem handle_release_eq (s : Sys) (c : Nat) (x : Conn) (app side : String) (t 
   subst hb
   have hid := Sys.findConn_id hx
   by_cases hdr : x.didRelease = true
-  · simp [runHandler, execL, execS, eval, isTruthy, Sys.handleRelease, St.conn, hx, getAttr, hdr, hid]
+  · simp [runHandler, execL, execS, eval, getPV, isTruthy, Sys.handleRelease, St.conn, hx, getAttr, hdr, hid]
   · have hdr' : x.didRelease = false := by simpa using hdr
     have h1 : (s.updConn c (fun y => { y with didRelease := true })).findConn c = some { x with didRelease := true } :=
       findConn_updConn (f := fun y => { y with didRelease := true }) hx (fun _ => rfl)
@@ -140,9 +141,9 @@ theorem handle_release_eq (s : Sys) (c : Nat) (x : Conn) (app side : String) (t 
       simp [hj, fieldStr] at hn; subst hn
       cases hnp : x.nameplateId with
       | none =>
-        simp [runHandler, execL, execS, eval, isTruthy, St.conn, hx, getAttr, hdr', hj, hnp, Sys.handleRelease, hid, ofOptStr]
+        simp [runHandler, execL, execS, eval, getPV, isTruthy, St.conn, hx, getAttr, hdr', hj, hnp, Sys.handleRelease, hid, ofOptStr]
       | some held =>
-        simp [runHandler, execL, execS, eval, isTruthy, St.conn, hx, h1, getAttr, setAttr, PV.toBool, hdr', hj, hnp, ofOptStr,
+        simp [runHandler, execL, execS, eval, getPV, isTruthy, St.conn, hx, h1, getAttr, setAttr, PV.toBool, hdr', hj, hnp, ofOptStr,
           ofJson, ha, hs, callMethod, callRelease, Sys.handleRelease, hid]
         generalize s.updConn c (fun y => { y with didRelease := true }) = S2
         rcases hr : S2.releaseNameplate app held side t with ⟨s3, r⟩
@@ -153,7 +154,7 @@ theorem handle_release_eq (s : Sys) (c : Nat) (x : Conn) (app side : String) (t 
       rename_i name
       cases hnp : x.nameplateId with
       | none =>
-        simp [runHandler, execL, execS, eval, isTruthy, St.conn, hx, h1, getAttr, setAttr, PV.toBool, hdr', hj, hnp, ofOptStr,
+        simp [runHandler, execL, execS, eval, getPV, isTruthy, St.conn, hx, h1, getAttr, setAttr, PV.toBool, hdr', hj, hnp, ofOptStr,
           ofJson, ha, hs, callMethod, callRelease, Sys.handleRelease, hid]
         generalize s.updConn c (fun y => { y with didRelease := true }) = S2
         rcases hr : S2.releaseNameplate app name side t with ⟨s3, r⟩
@@ -161,12 +162,12 @@ theorem handle_release_eq (s : Sys) (c : Nat) (x : Conn) (app side : String) (t 
       | some held =>
         by_cases hne : name = held
         · subst hne
-          simp [runHandler, execL, execS, eval, isTruthy, St.conn, hx, h1, getAttr, setAttr, PV.toBool, hdr', hj, hnp, ofOptStr,
+          simp [runHandler, execL, execS, eval, getPV, isTruthy, St.conn, hx, h1, getAttr, setAttr, PV.toBool, hdr', hj, hnp, ofOptStr,
             ofJson, ha, hs, callMethod, callRelease, Sys.handleRelease, hid]
           generalize s.updConn c (fun y => { y with didRelease := true }) = S2
           rcases hr : S2.releaseNameplate app name side t with ⟨s3, r⟩
           cases r <;> simp [hr, boolRes, mkFrame, Sys.internalErr]
-        · simp [runHandler, execL, execS, eval, isTruthy, St.conn, hx, getAttr, hdr', hj, hnp, Sys.handleRelease, hid, ofOptStr,
+        · simp [runHandler, execL, execS, eval, getPV, isTruthy, St.conn, hx, getAttr, hdr', hj, hnp, Sys.handleRelease, hid, ofOptStr,
             ofJson, hne]
 
 theorem handle_bind_eq (s : Sys) (c : Nat) (x : Conn) (t : Time) (msg : JObj) (pick : Nat) (draws : List Nat) (fresh : String)
@@ -201,7 +202,7 @@ theorem handle_bind_eq (s : Sys) (c : Nat) (x : Conn) (t : Time) (msg : JObj) (p
     | none =>
       simp [hja, fieldStr] at hap; subst hap
       simp only [runHandler, execL, execS, St.conn, hx, Option.getD_some, hfalse]
-      simp [execL, execS, eval, isTruthy, hja, Sys.handleBind, hid, hbd]
+      simp [execL, execS, eval, getPV, isTruthy, hja, Sys.handleBind, hid, hbd]
     | some ja =>
       cases ja <;> simp [hja, fieldStr] at hap
       subst hap
@@ -210,7 +211,7 @@ theorem handle_bind_eq (s : Sys) (c : Nat) (x : Conn) (t : Time) (msg : JObj) (p
       | none =>
         simp [hjs, fieldStr] at hsd; subst hsd
         simp only [runHandler, execL, execS, St.conn, hx, Option.getD_some, hfalse]
-        simp [execL, execS, eval, isTruthy, hja, hjs, Sys.handleBind, hid, hbd]
+        simp [execL, execS, eval, getPV, isTruthy, hja, hjs, Sys.handleBind, hid, hbd]
       | some js =>
         cases js <;> simp [hjs, fieldStr] at hsd
         subst hsd
@@ -231,13 +232,264 @@ theorem handle_bind_eq (s : Sys) (c : Nat) (x : Conn) (t : Time) (msg : JObj) (p
         | none =>
           simp [hjc, fieldCv] at hcv
           obtain ⟨rfl, rfl⟩ := hcv
-          simp [execL, execS, eval, isTruthy, hja, hjs, Sys.handleBind, hid, hbd, h1, h2,
+          simp [execL, execS, eval, getPV, isTruthy, hja, hjs, Sys.handleBind, hid, hbd, h1, h2,
             setAttr, PV.toOptStr, ofJson, getAttr, ofOptStr, callMethod, callLogClientVersion, List.lookup, h3, h4, hjc,
             cvOf, fieldCv, JVal.toOptStr?]
         | some jc =>
           have hc2 : fieldCv (some jc) = some (i, v) := by simpa [hjc] using hcv
-          simp [execL, execS, eval, isTruthy, hja, hjs, Sys.handleBind, hid, hbd, h1, h2,
+          simp [execL, execS, eval, getPV, isTruthy, hja, hjs, Sys.handleBind, hid, hbd, h1, h2,
             setAttr, PV.toOptStr, ofJson, getAttr, ofOptStr, callMethod, callLogClientVersion, List.lookup, h3, h4, hjc,
             cvOf, hc2]
+
+/-! ### handle_close -/
+
+theorem updConn_congr_on (s : Sys) (c : Nat) (f g : Conn → Conn) (h : ∀ y ∈ s.conns, y.id = c → f y = g y) :
+    s.updConn c f = s.updConn c g := by
+  unfold Sys.updConn
+  congr 1
+  apply List.map_congr_left
+  intro y hy
+  by_cases hc : y.id = c
+  · simp [hc, h y hy hc]
+  · simp [hc]
+
+/-- the statements of `handle_close` after the mailbox object is in hand -/
+def closeTail : List PS :=
+  [.if_ (.attr "_listening") [.call none "_mailbox" "remove_listener" [.self_], .setAttr "_listening" (.false_)] [],
+   .setAttr "_did_close" (.true_), .call none "_mailbox" "close" [.attr "_side", .get "mood", .rx],
+   .setAttr "_mailbox" (.none_), .send "closed" []]
+
+theorem closeTail_eq (S1 : Sys) (c : Nat) (x1 : Conn) (app side h : String) (t : Time) (msg : JObj) (pick : Nat)
+    (draws : List Nat) (fresh : String) (mood : Option String) (env : List (String × PV))
+    (hx : S1.findConn c = some x1) (huniq : ∀ y ∈ S1.conns, y.id = c → y = x1)
+    (ha : x1.app = some app) (hs : x1.side = some side) (hm : x1.mailbox = some h)
+    (hmood : fieldMood (jget msg "mood") = some mood) :
+    (let st := execL ⟨c, t, msg, pick, draws, fresh⟩ { s := S1, env := env, out := .running } closeTail
+      match st.out with
+      | .running => st.s
+      | .error text => st.s.sendError c text
+      | .exc cls => st.s.internalErr c cls) =
+    (match (S1.updConn c (fun y => { y with listening := false, didClose := true })).mailboxClose app h side mood t with
+      | (s3, false) => s3.internalErr c "IndexError"
+      | (s3, true) => (s3.updConn c (fun y => { y with mailbox := none })).send c .closed) := by
+  have hmoodv : (getPV msg "mood").toOptStr = mood := by
+    unfold getPV
+    cases hj : jget msg "mood" with
+    | none => simp [hj, fieldMood] at hmood; simp [PV.toOptStr, hmood]
+    | some v => cases v <;> simp [hj, fieldMood, JVal.toOptStr?] at hmood <;> simp [ofJson, PV.toOptStr, hmood]
+  have h2 : (S1.updConn c (fun y => { y with listening := false, didClose := true })).findConn c
+      = some { x1 with listening := false, didClose := true } :=
+    findConn_updConn (f := fun y => { y with listening := false, didClose := true }) hx (fun _ => rfl)
+  by_cases hl : x1.listening = true
+  · have h1 : (S1.updConn c (fun y => { y with listening := false })).findConn c = some { x1 with listening := false } :=
+      findConn_updConn (f := fun y => { y with listening := false }) hx (fun _ => rfl)
+    have h3 : (S1.updConn c (fun y => { y with listening := false })).updConn c (fun y => { y with didClose := true })
+        = S1.updConn c (fun y => { y with listening := false, didClose := true }) :=
+      updConn_updConn _ _ _ _ (fun _ => rfl)
+    simp [closeTail, execL, execS, eval, isTruthy, St.conn, hx, h1, h2, h3, getAttr, setAttr, PV.toBool, PV.toHandle, hl, ha, hs, hm,
+      callMethod, callClose, ofOptStr, hmoodv]
+    generalize S1.updConn c (fun y => { y with listening := false, didClose := true }) = S2
+    rcases hr : S2.mailboxClose app h side mood t with ⟨s3, r⟩
+    cases r <;> simp [hr, boolRes, mkFrame, Sys.internalErr]
+  · have hl' : x1.listening = false := by simpa using hl
+    have h3 : S1.updConn c (fun y => { y with didClose := true })
+        = S1.updConn c (fun y => { y with listening := false, didClose := true }) := by
+      apply updConn_congr_on
+      intro y hy hc
+      rw [huniq y hy hc]
+      simp [hl']
+    simp [closeTail, execL, execS, eval, isTruthy, St.conn, hx, h2, h3, getAttr, setAttr, PV.toBool, PV.toHandle, hl', ha, hs, hm,
+      callMethod, callClose, ofOptStr, hmoodv]
+    generalize S1.updConn c (fun y => { y with listening := false, didClose := true }) = S2
+    rcases hr : S2.mailboxClose app h side mood t with ⟨s3, r⟩
+    cases r <;> simp [hr, boolRes, mkFrame, Sys.internalErr]
+
+theorem execL_append (ctx : Ctx) : ∀ (l1 l2 : List PS) (st : St), st.out = .running →
+    execL ctx st (l1 ++ l2) = (match (execL ctx st l1).out with
+      | .running => execL ctx (execL ctx st l1) l2
+      | _ => execL ctx st l1)
+  | [], l2, st, h => by simp [execL, h]
+  | p :: l1, l2, st, h => by
+    simp only [List.cons_append, execL]
+    cases hp : (execS ctx st p).out with
+    | running => simp only []; exact execL_append ctx l1 l2 _ hp
+    | error text => simp [hp]
+    | exc cls => simp [hp]
+
+/-- the two validating statements at the head of `handle_close` -/
+def closeHead2 : List PS :=
+  [.if_ (.attr "_did_close") [.raise_ "only one close per connection"] [],
+   .if_ (.has "mailbox")
+     [.if_ (.notNone (.attr "_mailbox_id"))
+        [.if_ (.ne (.item "mailbox") (.attr "_mailbox_id")) [.raise_ "open and close must use same mailbox"] []] [],
+      .setLocal "mailbox_id" (.item "mailbox")]
+     [.if_ (.isNone (.attr "_mailbox_id")) [.raise_ "close without mailbox must follow open"] [],
+      .setLocal "mailbox_id" (.attr "_mailbox_id")]]
+
+/-- `if not self._mailbox: try: self._mailbox = self._app.open_mailbox(…) except CrowdedError: raise Error("crowded")` -/
+def closeOpen : PS :=
+  .if_ (.not_ (.attr "_mailbox"))
+     [.try_ [.call (some (true, "_mailbox")) "_app" "open_mailbox" [.local_ "mailbox_id", .attr "_side", .rx]]
+        [("CrowdedError", "crowded")]] []
+
+theorem handle_close_split : GenWsBody.handle_close = some (closeHead2 ++ ([closeOpen] ++ closeTail)) := rfl
+
+theorem updConn_id (s : Sys) (c : Nat) : s.updConn c (fun y => y) = s := by
+  unfold Sys.updConn
+  have : (s.conns.map fun x => if x.id = c then x else x) = s.conns := by
+    conv => rhs; rw [← List.map_id s.conns]
+    apply List.map_congr_left; intro y _; split <;> rfl
+  rw [this]
+
+theorem uniq_updConn {s : Sys} {c : Nat} {x : Conn} {f : Conn → Conn} (_hf : ∀ y, (f y).id = y.id)
+    (hu : ∀ y ∈ s.conns, y.id = c → y = x) : ∀ y ∈ (s.updConn c f).conns, y.id = c → y = f x := by
+  intro y hy hc
+  simp only [Sys.updConn, List.mem_map] at hy
+  obtain ⟨y0, hy0, rfl⟩ := hy
+  by_cases h0 : y0.id = c
+  · have := hu y0 hy0 h0
+    subst this
+    simp [h0]
+  · rw [if_neg h0] at hc
+    exact absurd hc h0
+
+/-- `go mb` of `Ws.handleClose` (with `x.id` written `c`) -/
+def goModel (s : Sys) (c : Nat) (x : Conn) (app side mb : String) (t : Time) (mood : Option String) : Sys :=
+  let opened : Sys × Sys.OpenRes × String :=
+    match x.mailbox with
+    | some h => (s, .ok, h)
+    | none =>
+      match s.openMailbox app mb side t with
+      | (s1, r) => (s1.updConn c (fun y => if r = .ok then { y with mailbox := some mb } else y), r, mb)
+  match opened with
+  | (s1, .crowded, _) => s1.sendError c "crowded"
+  | (s1, .integrity, _) => s1.internalErr c "IntegrityError"
+  | (s1, .ok, h) =>
+    match (s1.updConn c (fun y => { y with listening := false, didClose := true })).mailboxClose app h side mood t with
+    | (s3, false) => s3.internalErr c "IndexError"
+    | (s3, true) => (s3.updConn c (fun y => { y with mailbox := none })).send c .closed
+
+/-- what `go mb` of `Ws.handleClose` computes, given the head of the generated body has put `mb` into the local -/
+theorem close_go (s : Sys) (c : Nat) (x : Conn) (app side mb : String) (t : Time) (msg : JObj) (pick : Nat)
+    (draws : List Nat) (fresh : String) (mood : Option String)
+    (hx : s.findConn c = some x) (huniq : ∀ y ∈ s.conns, y.id = c → y = x)
+    (ha : x.app = some app) (hs : x.side = some side) (hmood : fieldMood (jget msg "mood") = some mood) :
+    (let st := execL ⟨c, t, msg, pick, draws, fresh⟩ { s := s, env := [("mailbox_id", .str mb)], out := .running }
+        ([closeOpen] ++ closeTail)
+      match st.out with
+      | .running => st.s
+      | .error text => st.s.sendError c text
+      | .exc cls => st.s.internalErr c cls) =
+    goModel s c x app side mb t mood := by
+  unfold goModel
+  rw [execL_append _ _ _ _ rfl]
+  cases hmb : x.mailbox with
+  | some h =>
+    have e : execL ⟨c, t, msg, pick, draws, fresh⟩ { s := s, env := [("mailbox_id", .str mb)], out := .running }
+        [closeOpen]
+        = { s := s, env := [("mailbox_id", .str mb)], out := .running } := by
+      simp [closeOpen, execL, execS, eval, isTruthy, St.conn, hx, getAttr, hmb]
+    rw [e]
+    exact closeTail_eq s c x app side h t msg pick draws fresh mood _ hx huniq ha hs hmb hmood
+  | none =>
+    rcases hr : s.openMailbox app mb side t with ⟨s1, r⟩
+    have hc1 : s1.conns = s.conns := by
+      have := Sys.openMailbox_conns s app mb side t
+      rw [hr] at this; exact this
+    have hx1 : s1.findConn c = some x := by rw [findConn_congr hc1]; exact hx
+    cases r with
+    | crowded =>
+      simp [closeOpen, execL, execS, eval, isTruthy, St.conn, hx, getAttr, hmb, ha, hs, callMethod, callOpen, hr, openRes, ofOptStr,
+        List.lookup, updConn_id]
+    | integrity =>
+      simp [closeOpen, execL, execS, eval, isTruthy, St.conn, hx, getAttr, hmb, ha, hs, callMethod, callOpen, hr, openRes, ofOptStr,
+        List.lookup, updConn_id]
+    | ok =>
+      have e : execL ⟨c, t, msg, pick, draws, fresh⟩ { s := s, env := [("mailbox_id", .str mb)], out := .running }
+          [closeOpen]
+          = { s := s1.updConn c (fun y => { y with mailbox := some mb }), env := [("mailbox_id", .str mb)], out := .running } := by
+        simp [closeOpen, execL, execS, eval, isTruthy, St.conn, hx, getAttr, hmb, ha, hs, callMethod, callOpen, hr, openRes, ofOptStr,
+          List.lookup, setAttr, PV.toHandle]
+      rw [e]
+      simp only []
+      have hx2 : (s1.updConn c (fun y => { y with mailbox := some mb })).findConn c = some { x with mailbox := some mb } :=
+        findConn_updConn (f := fun y => { y with mailbox := some mb }) hx1 (fun _ => rfl)
+      have hu2 : ∀ y ∈ (s1.updConn c (fun y => { y with mailbox := some mb })).conns, y.id = c → y = { x with mailbox := some mb } :=
+        uniq_updConn (f := fun y => { y with mailbox := some mb }) (fun _ => rfl) (by rw [hc1]; exact huniq)
+      have := closeTail_eq (s1.updConn c (fun y => { y with mailbox := some mb })) c { x with mailbox := some mb } app side mb t msg
+        pick draws fresh mood [("mailbox_id", .str mb)] hx2 hu2 ha hs rfl hmood
+      simpa using this
+
+theorem handle_close_eq (s : Sys) (c : Nat) (x : Conn) (app side : String) (t : Time) (msg : JObj) (pick : Nat)
+    (draws : List Nat) (fresh : String) (m mood : Option String)
+    (hx : s.findConn c = some x) (huniq : ∀ y ∈ s.conns, y.id = c → y = x)
+    (ha : x.app = some app) (hs : x.side = some side)
+    (hm : fieldStr (jget msg "mailbox") = some m) (hmood : fieldMood (jget msg "mood") = some mood) (body : List PS)
+    (hb : GenWsBody.handle_close = some body) :
+    runHandler body ⟨c, t, msg, pick, draws, fresh⟩ s = s.handleClose x app side t m mood := by
+  rw [handle_close_split] at hb
+  simp only [Option.some.injEq] at hb
+  subst hb
+  have hid := Sys.findConn_id hx
+  unfold runHandler
+  rw [execL_append _ _ _ _ rfl]
+  by_cases hdc : x.didClose = true
+  · simp [closeHead2, execL, execS, eval, getPV, isTruthy, St.conn, hx, getAttr, hdc, Sys.handleClose, hid]
+  · have hdc' : x.didClose = false := by simpa using hdc
+    cases hj : jget msg "mailbox" with
+    | none =>
+      simp [hj, fieldStr] at hm; subst hm
+      cases hmi : x.mailboxId with
+      | none =>
+        simp [closeHead2, execL, execS, eval, getPV, isTruthy, St.conn, hx, getAttr, hdc', hj, hmi, Sys.handleClose, hid, ofOptStr]
+      | some held =>
+        have hE : execL ⟨c, t, msg, pick, draws, fresh⟩ { s := s, env := [], out := .running } closeHead2
+            = { s := s, env := [("mailbox_id", .str held)], out := .running } := by
+          simp [closeHead2, execL, execS, eval, getPV, isTruthy, St.conn, hx, getAttr, hdc', hj, hmi, ofOptStr]
+        rw [hE]
+        refine (close_go s c x app side held t msg pick draws fresh mood hx huniq ha hs hmood).trans ?_
+        subst hid
+        simp only [Sys.handleClose, goModel, hdc', hmi]
+        first | rfl | simp
+    | some jv =>
+      cases jv <;> simp [hj, fieldStr] at hm
+      subst hm
+      rename_i mb
+      cases hmi : x.mailboxId with
+      | none =>
+        have hE : execL ⟨c, t, msg, pick, draws, fresh⟩ { s := s, env := [], out := .running } closeHead2
+            = { s := s, env := [("mailbox_id", .str mb)], out := .running } := by
+          simp [closeHead2, execL, execS, eval, getPV, isTruthy, St.conn, hx, getAttr, hdc', hj, hmi, ofOptStr, ofJson]
+        rw [hE]
+        refine (close_go s c x app side mb t msg pick draws fresh mood hx huniq ha hs hmood).trans ?_
+        subst hid
+        simp only [Sys.handleClose, goModel, hdc', hmi]
+        first | rfl | simp
+      | some held =>
+        by_cases hne : mb = held
+        · subst hne
+          have hE : execL ⟨c, t, msg, pick, draws, fresh⟩ { s := s, env := [], out := .running } closeHead2
+              = { s := s, env := [("mailbox_id", .str mb)], out := .running } := by
+            simp [closeHead2, execL, execS, eval, getPV, isTruthy, St.conn, hx, getAttr, hdc', hj, hmi, ofOptStr, ofJson]
+          rw [hE]
+          refine (close_go s c x app side mb t msg pick draws fresh mood hx huniq ha hs hmood).trans ?_
+          subst hid
+          simp only [Sys.handleClose, goModel, hdc', hmi, ne_eq, not_true_eq_false, if_false, Bool.false_eq_true, ite_false]
+          first | rfl | simp
+        · simp [closeHead2, execL, execS, eval, getPV, isTruthy, St.conn, hx, getAttr, hdc', hj, hmi, Sys.handleClose, hid, ofOptStr,
+            ofJson, hne]
+
+/-! ### the hypotheses `GenWsBody.handle_x = some body` above are not vacuous: these six handlers ARE translated -/
+
+theorem translated_handlers :
+    GenWsBody.handle_ping.isSome = true ∧ GenWsBody.handle_bind.isSome = true ∧ GenWsBody.handle_allocate.isSome = true ∧
+    GenWsBody.handle_claim.isSome = true ∧ GenWsBody.handle_release.isSome = true ∧ GenWsBody.handle_close.isSome = true :=
+  ⟨rfl, rfl, rfl, rfl, rfl, rfl⟩
+
+/-- non-vacuity on a concrete state: a bound connection claims nameplate "7" through the generated body -/
+example :
+    let s0 : Sys := { conns := [{ id := 2, app := some "a", side := some "s" }] }
+    (GenWsBody.handle_claim.map (fun b => (runHandler b ⟨2, 5, [("type", .str "claim"), ("nameplate", .str "7")], 0, [], "mb"⟩ s0).out)) =
+      some [.commit .chan, .commit .chan, .frame 2 (.claimed "mb") true] := by decide
 
 end Wormhole.Tie
